@@ -112,6 +112,7 @@ func genC05(seed uint64, withSpec bool) *Scenario {
 			switch x := r.Intn(100); {
 			case specTask:
 				op = specOp(r)
+				op.SharedMeta = false // a schema object shared between goroutines must not contain unexpanded $ref (outside C05)
 				if op.Kind == KSpecOne && coeRun {
 					op.Kind = KSpec
 				}
